@@ -485,3 +485,43 @@ Definition chk_guards (files : list ast) (iface : string) (scraped : list (strin
       end
   | _ => [999]
   end.
+
+(* ---- C05: the ledger the model predicts for one observed call of one pairing ---- *)
+Require Import Own.
+Definition backend_of (n : N) : backend := if n =? 0 then BC else if n =? 1 then BCpp else BRust.
+Definition opt_of (z : Z) : option N := if (z <? 0)%Z then None else Some (Z.to_N z).
+Definition c05_ids : list N := [1; 2; 3; 4; 5; 6].
+(* ins: object id per input position (-1 null); po: per output position (id the holder owns
+   before, id the implementation hands over); oh: holders observed after the call; oc / od:
+   counts of objects 1..6 observed when the call has returned / after the caller dropped all;
+   l0: their counts before the call (objects leaked by earlier calls stay alive).
+   -> [holders agree; counts after call agree; counts after drop agree; #aliased positions;
+       hypotheses of the theorems hold] *)
+Definition ledger_of (l : list Z) : ledger := fun y => nth (N.to_nat (y - 1)) l 0%Z.
+Definition chk_c05 (b1 b2 : N) (l0 ins : list Z) (po : list (Z * Z)) (ok : bool) (oh oc od : list Z) : list N :=
+  let s := {| sc_ins := map opt_of ins;
+              sc_outs := map (fun p => (opt_of (fst p), opt_of (snd p))) po; sc_ok := ok |} in
+  let B1 := backend_of b1 in
+  let B2 := backend_of b2 in
+  let r := after_call B1 B2 s (ledger_of l0) in
+  let Ld := after_drop B1 B2 s (ledger_of l0) in
+  [ b2n (list_eqb opt_eqb (fst r) (map opt_of oh));
+    b2n (list_eqb Z.eqb (map (snd r) c05_ids) oc);
+    b2n (list_eqb Z.eqb (map Ld c05_ids) od);
+    N.of_nat (List.length (filter (fun o => match o with Some _ => true | None => false end) (aliased (sc_outs s))));
+    b2n (holders_only_cpp B1 s) ].
+
+(* object paths of a struct type as the emitters enumerate them: distinct? (K_dup_path) *)
+Definition chk_paths_distinct (files : list ast) (iface : string) : list N :=
+  match front Cli Debug files with
+  | Ok mir =>
+      match find (fun t => match t with MTIface i => String.eqb (mi_name i) iface | _ => false end) mir with
+      | Some (MTIface top) =>
+          map (fun f => b2n (forallb (fun p =>
+                 match mp_ty p with
+                 | MStruct _ _ => nodup_str (map (fun x => String.concat "." (fst x)) (objects_model (mp_ty p)))
+                 | _ => true end) (mf_params f))) (mnode_funcs (mi_nodes top))
+      | _ => []
+      end
+  | _ => []
+  end.
